@@ -75,6 +75,16 @@ def keytuple(schema, item):
     return tuple(out)
 
 
+def ill_typed_index_key(tt, item):
+    """the item has an index key attribute with another type than the index declares: the write is rejected"""
+    for ix in tt.indexes.values():
+        for name, typ in ix["schema"]:
+            v = item_get(item, name)
+            if v is not MISSING and tag(v) != typ:
+                return True
+    return False
+
+
 class SpecTable:
     def __init__(self, op):
         k = op["key"]
@@ -215,6 +225,12 @@ def run_world(case, sdk, checks):
                 check_describe(w, i, t, o)
             continue
         # ---- single item operations
+        if "frontend" in checks and name in ("put", "update", "delete") and (op.get("garbageCond") or op.get("garbageUpdate")):
+            # the condition of a write is always evaluated, the update expression always parsed: no way around an error
+            # (with the native interpreter active an update without a registered updater fails as unsupported: an error too)
+            if k in ("ok", "item") or (op.get("garbageCond") and expected_err(o, "ConditionalCheckFailed")):
+                w.flag(i, "malformed-expression-accepted", "%s with a %s that is not a sentence of the grammar returned %s" %
+                       (name, "condition" if op.get("garbageCond") else "update expression", json.dumps(o)[:80]))
         if name == "put":
             key = keytuple(t.schema, op.get("item", []))
             cond_expect = cond_outcomes(w, op, t, key, "condTree")
@@ -320,7 +336,7 @@ def run_world(case, sdk, checks):
             if k == "search":
                 check_search(w, i, t, op, o, checks)
             elif k == "err" and "index" in checks and op.get("index") and op["index"] in t.indexes and op.get("scan") and not op.get("filter") \
-                    and not op.get("names") and not op.get("values"):
+                    and not op.get("names") and not op.get("values") and not op.get("startKey"):
                 w.flag(i, "index-scan-error", "scan of an existing index failed: " + json.dumps(o)[:80])
             continue
         if name == "pages":
@@ -387,7 +403,8 @@ def run_world(case, sdk, checks):
             if k == "err" and "restrictions" in checks:
                 n_req = sum(len(r[1]) for r in op.get("wreqs", []))
                 bad = any(("both" in r or r.get("neither")) for tr in op.get("wreqs", []) for r in tr[1]) or n_req > 25
-                badkey = any(("put" in r and (w.tables.get(tr[0]) is None or keytuple(w.tables[tr[0]].schema, r["put"]) is None)) or
+                badkey = any(("put" in r and (w.tables.get(tr[0]) is None or keytuple(w.tables[tr[0]].schema, r["put"]) is None or
+                                             ill_typed_index_key(w.tables[tr[0]], r["put"]))) or
                              ("del" in r and (w.tables.get(tr[0]) is None or keytuple(w.tables[tr[0]].schema, r["del"]) is None))
                              for tr in op.get("wreqs", []) for r in tr[1])
                 if not bad and not badkey:
@@ -478,6 +495,8 @@ def expr_predicate(w, op, table_hex, kind, text_field, tree_field):
         if key in w.matchers:
             mid = str(w.matchers[key]).encode()
             return lambda it: {"T"} if (item_get(it, "76") is not MISSING and item_get(it, "76") == {"S": mid.hex()}) else {"F"}
+    if op.get({"keyCond": "garbageKey", "filter": "garbageFilter", "cond": "garbageCond"}.get(text_field, "-")):
+        return lambda it: {"E"}       # the generator took the text from its list of non-sentences
     tree = op.get(tree_field)
     if tree is None:
         tree = NATIVE_TREES.get(norm_ws(raw)) if w.native or norm_ws(raw) in NATIVE_TREES else None
@@ -596,9 +615,14 @@ def check_search(w, i, t, op, o, checks):
     s = o["search"]
     if s["count"] != len(s["items"]):
         w.flag(i, "count", "Count %d differs from the number of returned items %d" % (s["count"], len(s["items"])))
-    if ("native" in checks or "search" in checks) and must_reject_search(w, t, op):
+    if ("native" in checks or "search" in checks or "frontend" in checks) and must_reject_search(w, t, op):
         w.flag(i, "malformed-expression-accepted", "the key condition or filter is not a sentence of the grammar and no native matcher is registered for this "
                "table, kind and text, yet the read succeeded", impl=o)
+        return
+    if "frontend" in checks and ((op.get("garbageKey") and not op.get("scan")) or op.get("garbageFilter")):
+        # no stored item reaches the expression, so it was never parsed
+        w.flag(i, "unevaluated-malformed-expression", "the key condition or filter is not a sentence of the grammar; no stored item reaches it (empty "
+               "table, nothing selected by the key condition, everything before the start key) and the read succeeded without looking at it", impl=json.dumps(o)[:120])
         return
     if op.get("startKey"):
         return
@@ -715,6 +739,7 @@ def check_pages(w, i, t, op, o, checks):
 # ------------------------------------------------------------------ per property
 
 CHECKS = {
+    "C09": {"frontend", "crash"},
     "C01": {"map", "observe", "crash"},
     "C02": {"search", "pages", "observe", "crash"},
     "C03": {"index", "observe", "crash"},
